@@ -725,6 +725,15 @@ func (db *ContractDB) loadFile(path, pkgPath string) {
 					for _, n := range strings.Fields(rest) {
 						curTI.Only[n] = true
 					}
+				case "foreign":
+					// foreign F G: reason -- functions outside the type's mutators that may assign the fields
+					names, reason, _ := strings.Cut(rest, ":")
+					if curTI.Foreign == nil {
+						curTI.Foreign = map[string]string{}
+					}
+					for _, n := range strings.Fields(names) {
+						curTI.Foreign[normalizeFuncName(n)] = strings.TrimSpace(reason)
+					}
 				default:
 					errf(l.no, "unknown typeinv keyword %q", kw)
 				}
